@@ -61,6 +61,16 @@ def generate(D, ms, backend, d):
         if "panicked at" in p.stderr or not errs or errs <= disabled:
             return None, p.stderr[-600:]
         disabled |= errs
+        # a method that mentions a disabled definition goes with it (the tool does not object to such a method, it emits nonsense)
+        changed = True
+        while changed:
+            changed = False
+            for name in G.ORDER:
+                if name not in disabled and any(t[0] == "struct" and t[2] in disabled for _, t in D.d[name]["fields"]):
+                    disabled.add(name); changed = True
+        for m in ms:
+            if m["owner"] in disabled or any(G.ty_use(t) and G.ty_use(t)[0] in disabled for t in m["params"] + m["ret"]):
+                disabled.add(f"{m['owner']}::{m['name']}")
     return None, "did not converge"
 
 
